@@ -400,7 +400,15 @@ func allPositions() []*position {
 		Build: pathSeg("/api/v2/search/tag/", "/values", withQ(search, "q", `{.b="x"}`))})
 	add(&position{Name: "tempo.values.tag.url", Group: "StringVal", Want: exactWant, Baselines: map[string]string{"default": marker},
 		Build: pathSeg("/api/search/tag/", "/values", nil)})
-	add(&position{Name: "tempo.trace.id.url", Group: "none", Want: exactWant, Baselines: map[string]string{"default": "000000000000000000000000000000a1"},
+	// (since fix 03a7357 a hex id shorter than 32 digits is left-padded with zeros, as the writer stores it: the padded form is the
+	// request's own id too)
+	add(&position{Name: "tempo.trace.id.url", Group: "none", Baselines: map[string]string{"default": "000000000000000000000000000000a1"},
+		Want: func(eff string) []lit {
+			if len(eff) > 0 && len(eff) < 32 && strings.Trim(strings.ToLower(eff), "0123456789abcdef") == "" {
+				return []lit{{Val: strings.Repeat("0", 32-len(eff)) + eff}}
+			}
+			return []lit{{Val: eff}}
+		},
 		Build: pathSeg("/api/traces/", "", nil)})
 	for _, op := range []string{"=", "!=", "=~", "!~"} {
 		op := op
